@@ -4,7 +4,7 @@
    and for the last theorem the reflection law (x op' y = y op x). *)
 From Coq Require Import ZArith List Bool.
 Import ListNotations.
-From Cffi Require Import C17.Model C17.Proofs.
+From Cffi Require Import C17.Model C17.Proofs C17.Proofs2.
 Open Scope Z_scope.
 
 (* for any two objects at least one of which is a cdata:  a == b  ->  hash(a) == hash(b) *)
@@ -117,6 +117,55 @@ Theorem C17_hash_pointer_range : forall p, 0 <= p < 2 ^ 64 ->
   - 2 ^ 63 <= hash_pointer p < 2 ^ 63 /\ hash_pointer p <> -1.
 Proof. exact hash_pointer_range. Qed.
 Print Assumptions C17_hash_pointer_range.
+
+(* ---- cdata_hash AS IT IS IN THE SOURCE NOW: C17/Gen.v hash_prog is regenerated on every run from the whole
+   body of cdata_hash (the arms tried before `return _Py_HashPointer(c_data)`); Model.hash / hash_prim
+   interpret it.  raw is the value read_raw_signed_data gives for a signed fits-long ctype (what an
+   integer shortcut arm would look at).  A primitive cdata hashes as the Python value it converts to,
+   for EVERY raw value: an inserted shortcut such as "a non-negative C integer is its own hash"
+   (seed C17-c; translated to HNonnegSelf) makes these proofs fail, see C17_nonneg_shortcut_refuted. *)
+Theorem C17_prim_hash_every_value :
+  forall (pyval : Type) (py_hash : pyval -> hres) self (x : pyval) (raw : option Z),
+  hash_prim pyval py_hash hash_prog self (CvVal x) raw = py_hash x.
+Proof. exact prim_hash_every_value. Qed.
+Print Assumptions C17_prim_hash_every_value.
+
+Theorem C17_longdouble_hash_every_value :
+  forall (pyval : Type) (py_hash : pyval -> hres) self (raw : option Z),
+  hash_prim pyval py_hash hash_prog self CvCData raw = HOk (hash_pointer self).
+Proof. exact prim_cdata_hash_every_value. Qed.
+Print Assumptions C17_longdouble_hash_every_value.
+
+(* integer cdata, Python's int hash modelled concretely (pyint_hash: sign * (|v| mod (2^61-1)), -1 -> -2):
+   hash(cd) = hash(int(cd)) for every 64-bit value, signed or unsigned ctype, fits-long or not *)
+Theorem C17_int_cdata_hash_every_value :
+  forall signed fits_long self v, - 2 ^ 63 <= v < 2 ^ 64 ->
+  int_cdata_hash hash_prog signed fits_long self v = HOk (pyint_hash v).
+Proof. exact int_cdata_hash_every_value. Qed.
+Print Assumptions C17_int_cdata_hash_every_value.
+
+Theorem C17_pyint_hash_small : forall v, 0 <= v < 2 ^ 61 - 1 -> pyint_hash v = v.
+Proof. exact pyint_hash_small. Qed.
+Print Assumptions C17_pyint_hash_small.
+Theorem C17_pyint_hash_not_identity : forall v, 2 ^ 61 - 1 <= v -> pyint_hash v <> v.
+Proof. exact pyint_hash_not_identity. Qed.
+Print Assumptions C17_pyint_hash_not_identity.
+Theorem C17_pyint_hash_range : forall v, - 2 ^ 63 <= v < 2 ^ 64 ->
+  - (2 ^ 61 - 1) < pyint_hash v < 2 ^ 61 - 1 /\ pyint_hash v <> -1.
+Proof. exact pyint_hash_range. Qed.
+Print Assumptions C17_pyint_hash_range.
+
+(* the program with the shortcut arm in front violates C17_int_cdata_hash_every_value at every value
+   from 2^61-1 on (non-vacuity of the theorem above with respect to the program) *)
+Theorem C17_nonneg_shortcut_refuted : forall self v, 2 ^ 61 - 1 <= v < 2 ^ 63 ->
+  int_cdata_hash [HNonnegSelf; HConvert] true true self v <> HOk (pyint_hash v).
+Proof. exact nonneg_shortcut_refuted. Qed.
+Print Assumptions C17_nonneg_shortcut_refuted.
+
+Example C17_pyint_hash_examples :
+  pyint_hash (-1) = -2 /\ pyint_hash (2 ^ 61 - 1) = 0 /\ pyint_hash (2 ^ 61) = 1 /\
+  pyint_hash (- 2 ^ 63) = -4 /\ pyint_hash (2 ^ 64 - 1) = 7 /\ pyint_hash (- (2 ^ 61)) = -2.
+Proof. vm_compute. repeat split; reflexivity. Qed.
 
 (* non-vacuity: Python values 0,1 with 0 == 1 true and equal hashes (think 5 and 5.0);
    an int cdata against a float, a struct against a pointer to it, a pointer against an int cdata *)
